@@ -9,6 +9,17 @@ the cumulative count of records at or below each listed probability.
 Tie: compute_tf_table / compute_df_concat_with_tf / predict() tf columns / completeness_data / the comparison-vector
 SQL over predict() / histogram_data / unlinkables_data + _self_link on generated datasets x models, DuckDB + SQLite,
 against the compiled model; an independent Python recount decides the property on the real output first.
+
+Generator audit (branch audit-c20): every case additionally draws its input FORM (frames / names of tables the caller registered under
+names that differ from the aliases / lists of records; with or without aliases; a single table bare or in a list), its LAYOUT (one
+pre-concatenated table with its own source dataset column, columns in another order, an empty table, string ids, renamed columns incl.
+blanks, upper case and reserved words, non-default id / source dataset column names), the ENTRY POINTS (internal data functions or the
+public completeness_chart / match_weights_histogram / unlinkables_chart / tf_adjustment_chart with default and non-default arguments,
+predictions registered with register_table_predict), DATA values (empty / blank strings, case variants, negative and wide ints, integer
+match weights on bin edges) and a SEQUENCE (every call twice, failing calls first, invalidate_cache, other data first under the same
+names followed by register_table(overwrite=True) and the same calls on the same or a new linker; completeness and linker on one API).
+The oracle decides section by section (a standing defect in one output does not blind the others; the model comparison skips only the
+rejected sections); profile_columns (anchored profile_data.py) is recounted by the oracle alone.
 """
 from __future__ import annotations
 
@@ -26,7 +37,14 @@ INT_DOM = [0, 1, 2, 5]
 COLS = ["a", "b", "c"]
 TYPES = {"unique_id": "int", "a": "str", "b": "str", "c": "int"}
 BIN_WIDTHS = [0.01, 0.1, 0.2, 0.25, 0.5, 1, 2, 5]
-PROFILES = ["mixed", "mixed", "null_heavy", "all_null", "single", "distinct"]
+PROFILES = ["mixed", "mixed", "null_heavy", "all_null", "single", "distinct", "tricky"]
+# audit: values a recount must treat as ordinary non-null values (empty / blank strings, case and trailing-blank variants, negative and wide ints)
+TRICKY_STR = ["", "ann", "Ann", "ann ", " ", "bob"]
+TRICKY_INT = [-1, 0, 1, 1 << 33]
+# audit: names of the input columns as the user may have them (blank inside, upper case, reserved words); the canonical names stay a, b, c
+NAME_CHOICES = {"unique_id": ["rid", "Rec_ID"], "a": ["first name", "Surname", "order"], "b": ["b 2", "B"], "c": ["group", "n"],
+                "source_dataset": ["sds", "Source"]}
+SESSIONS = ["invalidate", "rereg_same", "rereg_same_inv", "rereg_new", "new_noalias"]
 
 
 def lev(a: str, b: str) -> int:
@@ -48,7 +66,7 @@ def gen_probs(rng, k):
     return [round(x / s, 6) or 0.000001 for x in xs]
 
 
-def gen_comparison(rng: random.Random, col: str):
+def gen_comparison(rng: random.Random, col: str, dyadic: bool = False):
     levels = []
     if rng.random() < 0.8:
         levels.append({"kind": "null"})
@@ -61,24 +79,31 @@ def gen_comparison(rng: random.Random, col: str):
             levels.append({"kind": "lev", "k": 2})
     levels.append({"kind": "else"})
     nn = [l for l in levels if l["kind"] != "null"]
+    if dyadic:
+        # audit: m/u a power of two (with prior 0.5 every match weight is an integer: weights exactly on bin edges, weight 0, many ties)
+        for l in nn:
+            l["m"], l["u"] = rng.choice([0.5, 0.25, 0.125, 0.0625]), rng.choice([0.5, 0.25, 0.125, 0.0625])
+        return {"col": col, "levels": levels}
     for l, m, u in zip(nn, gen_probs(rng, len(nn)), gen_probs(rng, len(nn))):
         l["m"], l["u"] = m, u
-    if col != "c" and rng.random() < 0.6:
+    if rng.random() < (0.6 if col != "c" else 0.3):  # audit: TF adjustment on the integer column too
         nn[0]["tf"] = {"weight": rng.choice([0.0, 0.3, 1.0, 1.0, 0.5]), "minU": rng.choice([0.0, 0.0, 0.01, 0.2])}
     return {"col": col, "levels": levels}
 
 
-def gen_tables(rng: random.Random, k: int, max_rows: int):
+def gen_tables(rng: random.Random, k: int, max_rows: int, id_type: str = "int", empty: int | None = None):
     profile = {c: rng.choice(PROFILES) for c in COLS}
     fresh = iter(range(1000))
     tables = []
     single = {"a": rng.choice(STR_DOM), "b": rng.choice(STR_DOM[:4]), "c": rng.choice(INT_DOM)}
-    for _ in range(k):
+    for ti in range(k):
         n = rng.randint(1 if rng.random() < 0.15 else 2, max_rows)
+        if ti == empty:
+            n = 0  # audit: an empty input table next to non-empty ones
         ids = rng.sample(range(0, 14), n)  # ids overlap across tables
         rows = []
         for u in ids:
-            row = {"unique_id": u}
+            row = {"unique_id": f"r{u}" if id_type == "str" else u}
             for c in COLS:
                 p = profile[c]
                 if p == "all_null":
@@ -88,6 +113,8 @@ def gen_tables(rng: random.Random, k: int, max_rows: int):
                 elif p == "distinct":
                     j = next(fresh)
                     v = (100 + j) if c == "c" else f"v{j}"
+                elif p == "tricky":
+                    v = None if rng.random() < 0.2 else rng.choice(TRICKY_INT if c == "c" else TRICKY_STR)
                 else:
                     nr = 0.7 if p == "null_heavy" else rng.choice([0.0, 0.15, 0.3])
                     dom = INT_DOM if c == "c" else (STR_DOM if c == "a" else STR_DOM[:4])
@@ -98,24 +125,102 @@ def gen_tables(rng: random.Random, k: int, max_rows: int):
     return tables, profile
 
 
+def records_form_ok(tables):
+    """A list of plain records carries no column types: only offered when every column of every table has a non-null value."""
+    return all(t and all(any(r[c] is not None for r in t) for c in COLS) for t in tables)
+
+
 def gen_case(rng: random.Random, engine=None):
     engine = engine or rng.choice(["duckdb", "duckdb", "sqlite"])
     k = rng.choice([1, 1, 2, 2, 3])
-    tables, profile = gen_tables(rng, k, rng.choice([3, 5, 7, 9]))
+    o = random.Random(rng.randrange(1 << 30))  # the audit's dimensions draw from their own stream
+    id_type = "str" if o.random() < 0.2 else "int"
+    empty = o.randrange(k) if k >= 2 and o.random() < 0.06 else None
+    tables, profile = gen_tables(rng, k, rng.choice([3, 5, 7, 9]), id_type, empty)
     link_type = "dedupe_only" if k == 1 else rng.choice(["link_only", "link_and_dedupe"])
-    cols = rng.sample(COLS, rng.randint(1, 3))
-    comps = [gen_comparison(rng, c) for c in cols]
+    dyadic = o.random() < 0.1
+    if o.random() < 0.15:
+        cols = [rng.choice(COLS) for _ in range(rng.randint(2, 3))]  # audit: one column in several comparisons (each may be TF adjusted)
+    else:
+        cols = rng.sample(COLS, rng.randint(1, 3))
+    comps = [gen_comparison(rng, c, dyadic) for c in cols]
     r = rng.random()
     usable = [c for c in COLS if profile[c] not in ("all_null", "distinct")] or COLS
     blocking = [] if r < 0.65 else ([[rng.choice(usable)]] if r < 0.9 else [[rng.choice(usable)], [rng.choice(COLS)]])
-    return {
+    case = {
         "engine": engine, "tables": tables, "profile": profile, "link_type": link_type, "comparisons": comps,
-        "prior": rng.choice([0.0001, 0.01, 0.3, 0.5, 0.9, round(rng.uniform(0.001, 0.999), 4)]),
+        "prior": 0.5 if dyadic else rng.choice([0.0001, 0.01, 0.3, 0.5, 0.9, round(rng.uniform(0.001, 0.999), 4)]),
         "blocking": blocking, "nbins": rng.choice([1, 5, 10, 30, 30, 100]),
         "thr": None if rng.random() < 0.8 else round(rng.uniform(0.001, 0.5), 3),
         "compl_cols": None if rng.random() < 0.6 else rng.sample(["unique_id"] + COLS, rng.randint(1, 3)),
         "compl_names": rng.random() < 0.5, "tf_first": rng.random() < 0.5, "shuffle": rng.randrange(1 << 30), "tag": "random",
     }
+    case.update(gen_options(o, case))
+    return sanitize(case)
+
+
+def gen_options(o: random.Random, case: dict) -> dict:
+    """The audit's dimensions: input forms and layouts, column names, public entry points, option boundaries, call sequences."""
+    k = len(case["tables"])
+    opt: dict = {"id_type": "str" if any(isinstance(r["unique_id"], str) for t in case["tables"] for r in t) else "int"}
+    # --- layout
+    opt["preconcat"] = k >= 2 and all(case["tables"]) and o.random() < 0.1  # ONE table carrying its own source dataset column
+    opt["colperm"] = o.random() < 0.25  # later tables list the same columns in another order
+    if o.random() < 0.3:
+        names = {}
+        for canon, choices in NAME_CHOICES.items():
+            if o.random() < 0.6:
+                names[canon] = o.choice(choices)
+        opt["colnames"] = names
+    # --- form in which the tables are handed over
+    forms = ["frame", "frame", "name", "name"] + (["records"] if records_form_ok(case["tables"]) else [])
+    opt["form"] = o.choice(forms)
+    opt["aliases"] = o.random() < 0.75  # False: no input_table_aliases
+    opt["bare_single"] = o.random() < 0.5 and opt["form"] != "records"  # a single input table is handed over bare, not in a list (a bare list of records would read as a list of tables)
+    opt["api_shared"] = o.random() < 0.5  # completeness and the linker on ONE database API
+    opt["via"] = o.choice(["internal", "public"])  # public: completeness_chart / match_weights_histogram / unlinkables_chart
+    opt["x_col"] = o.choice(["match_weight", "match_weight", "match_probability"])
+    opt["repeat"] = o.random() < 0.08  # every descriptive call twice: the second answer must equal the first
+    opt["unl_first"] = o.random() < 0.3  # unlinkables before predict
+    opt["pred_form"] = "registered" if o.random() < 0.15 else "computed"  # the predictions handed to the histogram / comparison-vector SQL: predict()'s table, or a pandas copy registered with register_table_predict
+    opt["fail_first"] = o.random() < 0.1  # failing calls (unknown column, 0 bins) precede the real ones
+    # --- tf_adjustment_chart (public entry points only): how many of the most / least frequent values, values asked for by name
+    tfc = [ci for ci, c in enumerate(case["comparisons"]) if any("tf" in l for l in c["levels"])]
+    if tfc:
+        ci = o.choice(tfc)
+        col = case["comparisons"][ci]["col"]
+        present = sorted({r[col] for t in case["tables"] for r in t if r[col] is not None}, key=str)
+        inc = o.choice([None, None, "present", "absent", "both"])
+        include = None if inc is None else ([o.choice(present)] if present and inc in ("present", "both") else []) + ([999 if col == "c" else "zed"] if inc in ("absent", "both") else [])
+        opt["tfchart"] = {"comp": ci, "n_most": o.choice(["default", "default", None, 1, 2]), "n_least": o.choice(["default", "default", None, 1, 3]), "include": include}
+    # --- option boundaries
+    if o.random() < 0.15:
+        opt["nbins"] = o.choice([2, 3, 1000])
+    if o.random() < 0.12:
+        opt["thr_kind"] = "weight"
+        opt["thr"] = o.choice([0.0, -2.0, 1.0, round(o.uniform(-6, 6), 2)])
+    elif o.random() < 0.05:
+        opt["thr_kind"], opt["thr"] = "prob", 0.0  # falsy but given: keeps every pair
+    if opt["preconcat"] and case["compl_cols"] is not None and o.random() < 0.5:
+        opt["compl_cols"] = case["compl_cols"] + ["source_dataset"]
+    # --- sequences on one linker / one database API
+    kinds = ["invalidate"]
+    if opt["form"] == "name":
+        kinds += ["rereg_same", "rereg_same_inv", "rereg_new", "rereg_new"]
+    elif not opt["aliases"]:
+        kinds += ["new_noalias", "new_noalias"]
+    if o.random() < (0.06 if len(kinds) == 1 else 0.2):
+        opt["session"] = o.choice(kinds)
+        if opt["session"] != "invalidate":
+            # the data registered FIRST under the same names: other rows in some (at least one) of the tables
+            other, _ = gen_tables(random.Random(o.randrange(1 << 30)), k, 6, opt["id_type"])
+            which = [ti for ti in range(k) if o.random() < 0.6] or [o.randrange(k)]
+            opt["prelude"] = [other[ti] if ti in which else case["tables"][ti] for ti in range(k)]
+            if opt["session"] == "new_noalias":
+                opt["prelude"] = other  # a new linker registers every table anew
+                if opt["form"] == "records" and not records_form_ok(other):
+                    opt["form"] = "frame"
+    return opt
 
 
 def adversarial_cases(rng: random.Random):
@@ -156,12 +261,102 @@ def adversarial_cases(rng: random.Random):
             c["thr"] = None
             c["tag"] = f"nbins_{nb}"
             out.append(c)
-    return out
+        # ---- audit families
+        # every self-match probability rounds to 1: the unlinkables listing is empty
+        c = json.loads(json.dumps(base))
+        c["tables"] = [[{"unique_id": i, "a": STR_DOM[i % 3], "b": STR_DOM[i % 2], "c": i % 2} for i in range(6)]]
+        c.update(link_type="dedupe_only", prelude=None, session=None, preconcat=False, id_type="int", prior=0.9, tag="all_round_to_one",
+                 comparisons=[{"col": col, "levels": [{"kind": "null"}, {"kind": "eq", "m": 0.999999, "u": 0.000001}, {"kind": "else", "m": 0.000001, "u": 0.999999}]} for col in COLS])
+        out.append(c)
+        # integer match weights (m/u powers of two, prior 0.5): weights exactly on bin edges for the widths 0.25, 0.5, 1, 2, 5; weight 0
+        for nb in (1, 3, 10, 30):
+            c = json.loads(json.dumps(gen_case(rng, engine)))
+            c["comparisons"] = [gen_comparison(rng, cc["col"], dyadic=True) for cc in c["comparisons"]]
+            c.update(prior=0.5, nbins=nb, thr=None, blocking=[], tag="integer_weights")
+            out.append(c)
+        # empty strings / blanks / case variants in every string column, negative and wide ints
+        for _ in range(3):
+            c = json.loads(json.dumps(gen_case(rng, engine)))
+            if c.get("session") or c.get("id_type") == "str":
+                continue
+            for t in c["tables"]:
+                for r in t:
+                    for col in ("a", "b"):
+                        r[col] = None if rng.random() < 0.2 else rng.choice(TRICKY_STR)
+                    r["c"] = None if rng.random() < 0.2 else rng.choice(TRICKY_INT)
+            c["tag"] = "tricky_values"
+            out.append(c)
+        # every sequence kind once per engine, over two tables handed over by name (or without aliases)
+        for kind in SESSIONS:
+            c = json.loads(json.dumps(gen_case(rng, engine)))
+            while len(c["tables"]) != 2 or not all(c["tables"]):
+                c = json.loads(json.dumps(gen_case(rng, engine)))
+            other, _ = gen_tables(rng, 2, 6, c.get("id_type", "int"))
+            c.update(session=kind, form="frame" if kind == "new_noalias" else "name", aliases=kind != "new_noalias", preconcat=False,
+                     prelude=None if kind == "invalidate" else (other if kind == "new_noalias" else [other[0], c["tables"][1]]), tag="sequence_" + kind)
+            if c.get("compl_cols"):
+                c["compl_cols"] = [x for x in c["compl_cols"] if x != "source_dataset"] or None
+            out.append(c)
+        # the pre-concatenated layout with every link type that accepts it, and an empty table in each position
+        for lt in ("link_only", "link_and_dedupe"):
+            c = json.loads(json.dumps(gen_case(rng, engine)))
+            while len(c["tables"]) < 2 or not all(c["tables"]) or c.get("session"):
+                c = json.loads(json.dumps(gen_case(rng, engine)))
+            c.update(link_type=lt, preconcat=True, tag="preconcatenated")
+            out.append(c)
+        for pos in (0, 1):
+            c = json.loads(json.dumps(gen_case(rng, engine)))
+            while len(c["tables"]) < 2 or c.get("session") or c.get("preconcat"):
+                c = json.loads(json.dumps(gen_case(rng, engine)))
+            c["tables"][pos] = []
+            c["tag"] = "empty_table"
+            out.append(c)
+    return [sanitize(c) for c in out]
+
+
+def sanitize(case):
+    """Options that no longer fit a case whose tables were edited by hand are reset to their defaults."""
+    k = len(case["tables"])
+    pre = case.get("prelude")
+    if pre is not None and (len(pre) != k or case.get("session") in (None, "invalidate")):
+        case["prelude"] = pre = None
+    if case.get("session") in ("rereg_same", "rereg_same_inv", "rereg_new") and (case.get("form") != "name" or pre is None):
+        case["session"], case["prelude"] = None, None
+    if case.get("session") == "new_noalias" and (case.get("form") == "name" or case.get("aliases", True) or pre is None):
+        case["session"], case["prelude"] = None, None
+    if case.get("preconcat") and (k < 2 or not all(case["tables"]) or (case.get("prelude") and not all(case["prelude"]))):
+        case["preconcat"] = False
+    if not case.get("preconcat") and case.get("compl_cols"):
+        case["compl_cols"] = [c for c in case["compl_cols"] if c != "source_dataset"] or None
+    if case.get("form") == "records" and not (records_form_ok(case["tables"]) and records_form_ok(case.get("prelude") or [[{"a": 0, "b": 0, "c": 0}]])):
+        case["form"] = "frame"
+    if case.get("form") == "records":
+        case["bare_single"] = False
+    tc = case.get("tfchart")
+    if tc and not (tc["comp"] < len(case["comparisons"]) and any("tf" in l for l in case["comparisons"][tc["comp"]]["levels"])):
+        case["tfchart"] = None  # the chart is only defined for a comparison with a TF adjusted level
+    ids = [r["unique_id"] for t in case["tables"] + (case.get("prelude") or []) for r in t]
+    case["id_type"] = "str" if any(isinstance(u, str) for u in ids) else "int"
+    if case["id_type"] == "str" and not all(isinstance(u, str) for u in ids):
+        for t in case["tables"] + (case.get("prelude") or []):
+            for r in t:
+                r["unique_id"] = str(r["unique_id"])
+    return case
 
 
 # --------------------------------------------------------------------------- settings / real code
-def level_sql(col, l):
-    cl, cr = f'"{col}_l"', f'"{col}_r"'
+def actual(case, col):
+    """The name the input column `col` (canonical: unique_id, a, b, c, source_dataset) has in this case's tables."""
+    return (case.get("colnames") or {}).get(col, col)
+
+
+def q(name):
+    return '"' + name + '"'
+
+
+def level_sql(col, l, case=None):
+    name = actual(case or {}, col)
+    cl, cr = q(f"{name}_l"), q(f"{name}_r")
     k = l["kind"]
     if k == "null":
         return f"{cl} IS NULL OR {cr} IS NULL"
@@ -174,90 +369,398 @@ def level_sql(col, l):
 
 def settings_dict(case):
     comps = []
+    renamed = bool(case.get("colnames"))
     for ci, c in enumerate(case["comparisons"]):
         lv = []
         for l in c["levels"]:
-            d = {"sql_condition": level_sql(c["col"], l), "label_for_charts": l["kind"] + str(l.get("k", ""))}
+            d = {"sql_condition": level_sql(c["col"], l, case), "label_for_charts": l["kind"] + str(l.get("k", ""))}
             if l["kind"] == "null":
                 d["is_null_level"] = True
             else:
                 d["m_probability"], d["u_probability"] = l["m"], l["u"]
             if "tf" in l:
-                d["tf_adjustment_column"] = c["col"]
+                d["tf_adjustment_column"] = actual(case, c["col"])
                 d["tf_adjustment_weight"] = l["tf"]["weight"]
                 d["tf_minimum_u_value"] = l["tf"]["minU"]
             lv.append(d)
         comps.append({"output_column_name": f"{c['col']}{ci}", "comparison_levels": lv})
-    return {
+    col_sql = (lambda c: q(actual(case, c))) if renamed else (lambda c: c)
+    out = {
         "link_type": case["link_type"], "comparisons": comps,
-        "blocking_rules_to_generate_predictions": [" AND ".join(f"l.{c} = r.{c}" for c in rule) for rule in case["blocking"]],
+        "blocking_rules_to_generate_predictions": [" AND ".join(f"l.{col_sql(c)} = r.{col_sql(c)}" for c in rule) for rule in case["blocking"]],
         "probability_two_random_records_match": case["prior"], "retain_matching_columns": True,
-        "retain_intermediate_calculation_columns": True,
+        "retain_intermediate_calculation_columns": True,  # without them predict() carries no gamma columns: no comparison vectors to count
     }
-
-
-def frames(case):
-    from harness import impl
-
-    out = []
-    rng = random.Random(case.get("shuffle", 0))
-    for rows in case["tables"]:
-        rows = list(rows)
-        rng.shuffle(rows)
-        out.append(impl.typed_frame([{k: r[k] for k in TYPES} for r in rows], TYPES))
+    if actual(case, "unique_id") != "unique_id":
+        out["unique_id_column_name"] = actual(case, "unique_id")
+    if actual(case, "source_dataset") != "source_dataset":
+        out["source_dataset_column_name"] = actual(case, "source_dataset")
     return out
 
 
+def types_of(case):
+    t = dict(TYPES)
+    if case.get("id_type") == "str":
+        t["unique_id"] = "str"
+    return t
+
+
+def layout(case, tables=None):
+    """[(rows, column order, types)] of the tables as handed over: shuffled rows; one table with its own source dataset column for the
+    pre-concatenated layout; later tables may list the same columns in another order."""
+    tables = case["tables"] if tables is None else tables
+    ty = types_of(case)
+    rng = random.Random(case.get("shuffle", 0))
+    groups = []
+    for rows in tables:
+        rows = list(rows)
+        rng.shuffle(rows)
+        groups.append(rows)
+    if case.get("preconcat"):
+        allrows = [dict(r, source_dataset=ALIASES[ti]) for ti, rows in enumerate(groups) for r in rows]
+        rng.shuffle(allrows)
+        groups = [allrows]
+        ty = dict(ty, source_dataset="str")
+    out = []
+    for gi, rows in enumerate(groups):
+        cols = list(ty)
+        if case.get("colperm") and (gi > 0 or case.get("preconcat")):
+            random.Random(case.get("shuffle", 0) + gi).shuffle(cols)
+        out.append((rows, cols, ty))
+    return out
+
+
+def frames(case, tables=None):
+    from harness import impl
+
+    out = []
+    for rows, cols, ty in layout(case, tables):
+        df = impl.typed_frame([{k: r[k] for k in ty} for r in rows], ty)
+        out.append(df[cols].rename(columns={c: actual(case, c) for c in cols}))
+    return out
+
+
+def input_data(case, tables=None):
+    """Typed frames, or lists of plain records (form 'records')."""
+    if case.get("form") != "records":
+        return frames(case, tables)
+    return [[{actual(case, c): r[c] for c in cols} for r in rows] for rows, cols, _ in layout(case, tables)]
+
+
+def n_inputs(case):
+    return 1 if case.get("preconcat") else len(case["tables"])
+
+
+def table_names(case):
+    """Names under which the caller registers the tables (form 'name'): they differ from the aliases."""
+    return [f"tbl_{a}" for a in ALIASES[: n_inputs(case)]]
+
+
+def sd_names(case):
+    """The value of the source dataset column for the records of each table."""
+    k = len(case["tables"])
+    if case.get("preconcat") or case.get("aliases", True):
+        return ALIASES[:k]
+    return [f"__splink__input_table_{i}" for i in range(k)]
+
+
 def compl_names(case):
-    return ALIASES[: len(case["tables"])] if case["compl_names"] else None
+    return ALIASES[: n_inputs(case)] if case["compl_names"] else None
 
 
-def run_impl(case: dict) -> dict:
-    from splink import Linker
-    from splink.internals.comparison_vector_distribution import comparison_vector_distribution_sql
+def compl_canon_cols(case):
+    return list(TYPES) + (["source_dataset"] if case.get("preconcat") else [])
+
+
+def getci(row, key):
+    if key in row:
+        return row[key]
+    lk = key.lower()
+    for k, v in row.items():
+        if k.lower() == lk:
+            return v
+    raise KeyError(key)
+
+
+def canon_row(case, row):
+    """Output columns renamed to the canonical input names (unique_id, source_dataset, a, b, c with _l/_r/tf_ affixes)."""
+    if not case.get("colnames"):
+        return row
+    m = {}
+    for canon in ("unique_id", "source_dataset", "a", "b", "c"):
+        act = actual(case, canon)
+        for pre in ("", "tf_"):
+            for suf in ("", "_l", "_r"):
+                m[(pre + act + suf).lower()] = pre + canon + suf
+    return {m.get(k.lower(), k): v for k, v in row.items()}
+
+
+class _Session:
+    """One database API with the caller's registrations (form 'name': tables registered by the caller under table_names)."""
+
+    def __init__(self, case, engine):
+        from harness import impl
+
+        self.case = case
+        self.api = impl.make_api(engine, threads=2)
+        self.registered = False
+        self.current = None
+        self.compl_calls = 0
+        self.settings = None  # ONE settings dict for every linker of the sequence (object reuse)
+
+    def hand_over(self, tables=None, again=False):
+        """What the caller passes as `table_or_tables`; form 'name' registers (or, `again`, registers anew with overwrite=True) first."""
+        case = self.case
+        data = input_data(case, tables)
+        if case.get("form") != "name":
+            return data
+        names = table_names(case)
+        if not self.registered or again:
+            prev = self.current if again else None
+            for i, (d, nme) in enumerate(zip(data, names)):
+                if again and prev is not None and tables_equal(prev[i], d):
+                    continue  # only the tables whose content changed are registered again
+                self.api.register_table(d, nme, overwrite=again)
+            self.registered = True
+            self.current = data
+        return names
+
+
+def guarded(raised, call, public, internal):
+    """A public chart function with its internal data function as the fallback: what it raises is recorded (and reported as a
+    violation), the case goes on with the data function so that the remaining outputs are still examined."""
+    try:
+        return public()
+    except Exception as e:  # noqa: BLE001
+        raised.append({"call": call, "error": f"{type(e).__name__}({str(e)[:200]!r})"})
+        return internal()
+
+
+def tables_equal(a, b):
+    return a.equals(b) if hasattr(a, "equals") else a == b
+
+
+def norm(x):
+    """Order-insensitive form of a record list (or of a dict of record lists) for comparing two answers to the same call."""
+    if isinstance(x, dict):
+        return {k: norm(v) for k, v in x.items()}
+    if isinstance(x, list):
+        return sorted(json.dumps(e, sort_keys=True, default=str) for e in x)
+    return x
+
+
+def completeness_records(case, sess, tables=None, again=False, raised=None):
+    from splink.exploratory import completeness_chart
     from splink.internals.completeness import completeness_data
+
+    handed = sess.hand_over(tables, again)
+    cols = None if case["compl_cols"] is None else [actual(case, c) for c in case["compl_cols"]]
+    if case.get("fail_first"):
+        try:
+            completeness_data(sess.api.register_multiple_tables(handed), sess.api, ["no_such_column"], compl_names(case))
+        except Exception:  # noqa: BLE001  the failing call is the point
+            pass
+    def internal():
+        if case.get("form", "frame") == "name":
+            d = sess.api.register_multiple_tables(handed)
+        else:
+            d = sess.api.register_multiple_tables(handed, [f"in_{a}" for a in ALIASES[: len(handed)]], overwrite=sess.compl_calls > 0)
+        sess.compl_calls += 1
+        return completeness_data(d, sess.api, cols, compl_names(case))
+
+    def public():
+        arg = handed[0] if len(handed) == 1 and case.get("bare_single") else handed
+        kw = {}
+        if cols is not None:
+            kw["cols"] = cols
+        if compl_names(case) is not None:
+            kw["table_names_for_chart"] = compl_names(case)
+        chart = completeness_chart(arg, sess.api, **kw).to_dict()
+        return list(chart["datasets"].values())[0] if chart.get("datasets") else chart["data"].get("values", [])
+
+    if case.get("via") == "public":
+        recs = guarded(raised if raised is not None else [], f"completeness_chart({'cols, ' if cols else ''}{'table_names_for_chart' if compl_names(case) else ''})", public, internal)
+    else:
+        recs = internal()
+    back = {actual(case, c).lower(): c for c in compl_canon_cols(case)}
+    return [dict(r, column_name=back.get(str(r["column_name"]).lower(), r["column_name"])) for r in recs]
+
+
+def make_linker(case, sess, tables=None, again=False):
+    from splink import Linker
+
+    handed = sess.hand_over(tables, again)
+    kw = {}
+    bare = len(handed) == 1 and case.get("bare_single")
+    if case.get("aliases", True):
+        kw["input_table_aliases"] = ALIASES[0] if bare else ALIASES[: len(handed)]
+    if sess.settings is None:
+        sess.settings = settings_dict(case)
+    return Linker(handed[0] if bare else handed, sess.settings, sess.api, **kw)
+
+
+def describe(case, linker, api, final=True) -> dict:
+    """Every descriptive output of one linker, in the case's order and through the case's entry points."""
+    from splink.internals.comparison_vector_distribution import comparison_vector_distribution_sql
     from splink.internals.match_weights_histogram import histogram_data
     from splink.internals.pipeline import CTEPipeline
     from splink.internals.unlinkables import unlinkables_data
     from splink.internals.vertically_concatenate import compute_df_concat_with_tf
 
-    from harness import impl
-
-    k = len(case["tables"])
     out: dict = {}
-    if case["engine"] == "duckdb":  # completeness_data emits parenthesised UNION ALL members: not SQLite syntax (the test-suite excludes sqlite too)
-        api = impl.make_api("duckdb", threads=2)
-        d = api.register_multiple_tables(frames(case), [f"in_{a}" for a in ALIASES[:k]])
-        out["compl"] = [dict(r) for r in completeness_data(d, api, case["compl_cols"], compl_names(case))]
-    api = impl.make_api(case["engine"], threads=2)
-    linker = Linker(frames(case), settings_dict(case), api, input_table_aliases=ALIASES[:k])
+    public = case.get("via") == "public"
+    twice = bool(case.get("repeat"))
+    differs = []
+    raised: list = []
 
     def tf_tables():
         res = {}
         for col in COLS:
-            recs = linker.table_management.compute_tf_table(col).as_record_dict()
-            res[col] = [[r[col], r[f"tf_{col}"]] for r in recs]
+            name = actual(case, col)
+            recs = linker.table_management.compute_tf_table(name).as_record_dict()
+            res[col] = [[getci(r, name), getci(r, f"tf_{name}")] for r in recs]
         return res
 
+    def unl():
+        if public:
+            x_col = case.get("x_col", "match_weight")
+            kw = {} if x_col == "match_weight" else {"x_col": x_col}
+            return guarded(raised, f"unlinkables_chart({'x_col=' + repr(x_col) if kw else ''})",
+                           lambda: linker.evaluation.unlinkables_chart(as_dict=True, **kw)["data"]["values"], lambda: unlinkables_data(linker))
+        return unlinkables_data(linker)
+
+    def hist(pred):
+        nb = case["nbins"]
+        data = lambda: (histogram_data(linker, pred) if nb == 100 else histogram_data(linker, pred, nb)).as_record_dict()  # noqa: E731  default num_bins = 100
+        if public:  # default target_bins = 30
+            kw = {} if nb == 30 else {"target_bins": nb}
+            recs = guarded(raised, f"match_weights_histogram({'target_bins' if kw else ''})",
+                           lambda: linker.visualisations.match_weights_histogram(pred, as_dict=True, **kw)["data"]["values"], data)
+        else:
+            recs = data()
+        return [{kk: float(v) if kk != "count_rows" else int(v) for kk, v in r.items()} for r in recs]
+
+    def rep(name, f):
+        a = f()
+        if twice:
+            b = f()
+            if norm(a) != norm(b):
+                differs.append(name)
+            return b
+        return a
+
+    if case.get("fail_first"):
+        try:
+            linker.table_management.compute_tf_table("no_such_column")
+        except Exception:  # noqa: BLE001
+            pass
     if case["tf_first"]:
-        out["tf"] = tf_tables()
-    cw = compute_df_concat_with_tf(linker, CTEPipeline()).as_record_dict()
+        out["tf"] = rep("tf tables", tf_tables)
+    if case.get("unl_first"):
+        out["unl"] = rep("unlinkables", unl)
+    cw = [canon_row(case, r) for r in compute_df_concat_with_tf(linker, CTEPipeline()).as_record_dict()]
     out["concat"] = [{kk: v for kk, v in r.items() if kk in ("unique_id", "source_dataset", "a", "b", "c") or kk.startswith("tf_")} for r in cw]
-    kw = {} if case["thr"] is None else {"threshold_match_probability": case["thr"]}
+    kw = {}
+    if case["thr"] is not None:
+        kw = {"threshold_match_weight" if case.get("thr_kind") == "weight" else "threshold_match_probability": case["thr"]}
     pred = linker.inference.predict(**kw)
-    out["predict"] = [{kk: v for kk, v in r.items() if kk.startswith(("gamma_", "tf_", "match_", "unique_id", "source_dataset")) or kk[:-2] in COLS} for r in pred.as_record_dict()]
+    out["predict"] = [{kk: v for kk, v in r.items() if kk.startswith(("gamma_", "tf_", "match_", "unique_id", "source_dataset")) or kk[:-2] in COLS}
+                      for r in (canon_row(case, r) for r in pred.as_record_dict())]
     if not case["tf_first"]:
-        out["tf"] = tf_tables()
-    pipeline = CTEPipeline([pred])
-    pipeline.enqueue_sql(comparison_vector_distribution_sql(linker), "__splink__df_comparison_vector_distribution")
-    out["cvd"] = api.sql_pipeline_to_splink_dataframe(pipeline).as_record_dict()
+        out["tf"] = rep("tf tables", tf_tables)
+    # only in the last round of a sequence: a registered prediction table is, by design, what later predict() calls on this database API
+    # return (until invalidate_cache), whatever happens to the input tables
+    if final and case.get("pred_form") == "registered" and out["predict"]:  # (an empty SQLite result reads back as a frame without columns)
+        linker._c20_regs = getattr(linker, "_c20_regs", 0) + 1
+        pred = linker.table_management.register_table_predict(pred.as_pandas_dataframe(), overwrite=linker._c20_regs > 1)
+
+    def cvd():
+        pipeline = CTEPipeline([pred])
+        pipeline.enqueue_sql(comparison_vector_distribution_sql(linker), "__splink__df_comparison_vector_distribution")
+        return api.sql_pipeline_to_splink_dataframe(pipeline).as_record_dict()
+
+    out["cvd"] = rep("comparison vector distribution", cvd)
+    tc = case.get("tfchart")
+    if public and tc and tc["comp"] < len(case["comparisons"]) and any(r[case["comparisons"][tc["comp"]]["col"]] is not None for t in case["tables"] for r in t):
+        kw = {}
+        if tc["n_most"] != "default":
+            kw["n_most_freq"] = tc["n_most"]
+        if tc["n_least"] != "default":
+            kw["n_least_freq"] = tc["n_least"]
+        if tc["include"] is not None:
+            kw["vals_to_include"] = tc["include"]
+
+        def tfchart():
+            import warnings
+
+            with warnings.catch_warnings():
+                warnings.simplefilter("ignore")
+                ch = linker.visualisations.tf_adjustment_chart(f"{case['comparisons'][tc['comp']]['col']}{tc['comp']}", as_dict=True, **kw)
+            keep = ("value", "tf", "gamma", "u_probability", "tf_adjustment_weight", "log2_bf_tf", "most_freq_rank", "least_freq_rank")
+            return {"data": [{k: (v.item() if hasattr(v, "item") else v) for k, v in row.items() if k in keep} for row in ch["datasets"]["data"]],
+                    "hist_total": int(sum(row["count"] for row in ch["datasets"]["hist"]))}
+
+        out["tfchart"] = guarded(raised, f"tf_adjustment_chart({', '.join(sorted(kw))})", tfchart, lambda: None)
     if out["predict"]:
-        hist = histogram_data(linker, pred, case["nbins"]).as_record_dict()
-        out["hist"] = [{kk: float(v) if kk != "count_rows" else int(v) for kk, v in r.items()} for r in hist]
+        if case.get("fail_first"):
+            try:
+                linker.visualisations.match_weights_histogram(pred, target_bins=0, as_dict=True)
+            except Exception:  # noqa: BLE001
+                pass
+        out["hist"] = rep("histogram", lambda: hist(pred))
     else:
         out["hist"] = None  # _bins(None, None, n) raises TypeError on an empty prediction table: no scored pairs, nothing to partition
-    out["unl"] = unlinkables_data(linker)
+    if not case.get("unl_first"):
+        out["unl"] = rep("unlinkables", unl)
     out["self"] = [[r["match_weight"], r["match_probability"]] for r in linker._self_link().as_record_dict()]
+    if differs:
+        out["repeat_differs"] = differs
+    if raised:
+        out["raised"] = raised
+    return out
+
+
+def run_impl(case: dict) -> dict:
+    out: dict = {}
+    raised: list = []
+    sess = _Session(case, case["engine"])
+    session = case.get("session")
+    pre = case.get("prelude")
+    do_compl = case["engine"] == "duckdb"  # completeness_data emits parenthesised UNION ALL members: not SQLite syntax (the test-suite excludes sqlite too)
+    csess = sess if case.get("api_shared") or not do_compl else _Session(case, "duckdb")
+    # ---- first round of a sequence: other data under the same names, or the same data before invalidate_cache()
+    if session:
+        first = pre if pre is not None else case["tables"]
+        if do_compl:
+            completeness_records(case, csess, first)
+        linker = make_linker(case, sess, first)
+        describe(case, linker, sess.api, final=False)
+        again = pre is not None
+        if do_compl:
+            out["compl"] = completeness_records(case, csess, None, again=again, raised=raised)
+        if session in ("rereg_new", "new_noalias"):
+            linker = make_linker(case, sess, None, again=again)
+        else:
+            if again:
+                sess.hand_over(None, again=True)
+            if session in ("invalidate", "rereg_same_inv"):
+                linker.table_management.invalidate_cache()
+        out.update(describe(case, linker, sess.api))
+        if raised:
+            out["raised"] = raised + out.get("raised", [])
+        return out
+    if do_compl:
+        out["compl"] = completeness_records(case, csess, raised=raised)
+        if case.get("repeat"):
+            if norm(completeness_records(case, csess)) != norm(out["compl"]):
+                out["repeat_differs"] = ["completeness"]
+    linker = make_linker(case, sess)
+    d = describe(case, linker, sess.api)
+    if "repeat_differs" in out and "repeat_differs" in d:
+        d["repeat_differs"] = out["repeat_differs"] + d["repeat_differs"]
+    out.update(d)
+    if raised:
+        out["raised"] = raised + d.get("raised", [])
     return out
 
 
@@ -267,10 +770,18 @@ run_impl_safe = core.safe(run_impl)
 # --------------------------------------------------------------------------- independent oracle
 def records(case):
     out = []
+    names = sd_names(case)
     for ti, rows in enumerate(case["tables"]):
         for r in rows:
-            out.append(dict(r, source_dataset=ALIASES[ti], _t=ti))
+            out.append(dict(r, source_dataset=names[ti], _t=ti))
     return out
+
+
+def compl_groups(case):
+    """The datasets as completeness sees them: one per table handed over (the pre-concatenated table is ONE dataset)."""
+    if case.get("preconcat"):
+        return [[dict(r, source_dataset=ALIASES[ti]) for ti, rows in enumerate(case["tables"]) for r in rows]]
+    return case["tables"]
 
 
 def gamma_of(c, x, y):
@@ -331,8 +842,8 @@ def tol32(case):
     return 2e-7 if case["engine"] == "duckdb" else 1e-12
 
 
-def rkey(r):
-    return (r["source_dataset"], r["unique_id"]) if "source_dataset" in r else (ALIASES[0], r["unique_id"])
+def rkey(case, r):
+    return (r["source_dataset"], r["unique_id"]) if "source_dataset" in r else (sd_names(case)[0], r["unique_id"])
 
 
 def knife(x, scale):
@@ -345,150 +856,228 @@ def half_away(x, scale):
     return int(math.floor(abs(y) + 0.5)) * (1 if y >= 0 else -1)
 
 
-def verdict(case, r):
-    """The property decided on the real output only (None = holds)."""
+def verdicts(case, r):
+    """The property decided on the real output only, section by section (each section stops at its first failure): list of messages,
+    empty = holds."""
     recs = records(case)
     n = len(recs)
     t32 = tol32(case)
-    # ---- term-frequency tables
-    for col in COLS:
-        want = tf_of(case, col)
-        got = r["tf"][col]
-        if len({v for v, _ in got}) != len(got):
-            return f"tf table of {col} lists a value twice: {got}"
-        if {v for v, _ in got} != set(want):
-            return f"tf table of {col} lists values {sorted(map(str, (v for v, _ in got)))} but the non-null values are {sorted(map(str, want))}"
-        for v, t in got:
-            if not core.close(t, want[v], 1e-12):
-                return f"tf_{col}({v}) = {t} but its relative frequency among non-null values is {want[v]}"
-        if got and not core.close(sum(t for _, t in got), 1.0, 1e-9):
-            return f"tf table of {col} sums to {sum(t for _, t in got)}"
-    # ---- ... are the values used in scoring
-    tfcols = sorted({c["col"] for c in case["comparisons"] if any("tf" in l for l in c["levels"])})
-    if len(r["concat"]) != n or sorted(map(str, (rkey(x) for x in r["concat"]))) != sorted(str((x["source_dataset"], x["unique_id"])) for x in recs):
-        return f"__splink__df_concat_with_tf has {len(r['concat'])} rows for {n} input records (the TF join must neither drop nor duplicate records)"
-    for x in r["concat"]:
-        for col in tfcols:
-            w = None if x[col] is None else tf_of(case, col)[x[col]]
-            if not core.close(x.get(f"tf_{col}"), w, 1e-12):
-                return f"record {rkey(x)} carries tf_{col} = {x.get(f'tf_{col}')} for value {x[col]!r}; the TF table says {w}"
-    for p in r["predict"]:
-        for col in tfcols:
-            for side in ("l", "r"):
-                v = p.get(f"{col}_{side}")
-                w = None if v is None else tf_of(case, col)[v]
-                if f"tf_{col}_{side}" not in p or not core.close(p[f"tf_{col}_{side}"], w, 1e-12):
-                    return f"scored pair uses tf_{col}_{side} = {p.get(f'tf_{col}_{side}')} for value {v!r}; the TF table says {w}"
-    # ---- completeness
-    if "compl" in r:
-        cols = case["compl_cols"] or list(TYPES)
-        names = compl_names(case) or [f"input_data_{i + 1}" for i in range(len(case["tables"]))]
-        want = {}
-        for ti, rows in enumerate(case["tables"]):
-            for col in cols:
-                nn = sum(1 for x in rows if x[col] is not None)
-                want[(names[ti], col)] = (len(rows) - nn, len(rows), nn / len(rows))
-        got = {}
-        for x in r["compl"]:
-            key = (x["source_dataset"], x["column_name"])
-            if key in got:
-                return f"completeness lists {key} twice"
-            got[key] = (x["total_null_rows"], x["total_rows_inc_nulls"], x["completeness"])
-        if set(got) != set(want):
-            return f"completeness rows {sorted(map(str, got))} but the (dataset, column) pairs are {sorted(map(str, want))}"
-        for key, (nul, tot, comp) in want.items():
-            g = got[key]
-            if g[0] != nul or g[1] != tot or not core.close(g[2], comp, t32, t32):
-                return f"completeness of {key}: (nulls, rows, completeness) = {g} but a recount gives {(nul, tot, comp)}"
-    # ---- comparison-vector distribution
     gcols = [f"gamma_{c['col']}{i}" for i, c in enumerate(case["comparisons"])]
     pv = [tuple(p[g] for g in gcols) for p in r["predict"]]
     npairs = len(pv)
-    if case["thr"] is None:
-        sp = scored_pairs(case)
-        if npairs != len(sp):
-            return f"predict scored {npairs} pairs; the blocking rules and link type admit {len(sp)}"
-        indep = sorted(tuple(gamma_of(c, x[c["col"]], y[c["col"]])[0] for c in case["comparisons"]) for x, y in sp)
-        if indep != sorted(pv):
-            return "gamma vectors of the scored pairs differ from an independent evaluation of the levels"
-    seen = set()
-    tot, totp = 0, 0.0
-    last = None
-    for x in r["cvd"]:
-        g = tuple(x[c] for c in gcols)
-        if g in seen:
-            return f"comparison vector {g} listed twice"
-        seen.add(g)
-        cnt = x["count_rows_in_comparison_vector_group"]
-        if cnt != pv.count(g) or cnt == 0:
-            return f"comparison vector {g}: count {cnt} but {pv.count(g)} scored pairs have it"
-        if not core.close(x["proportion_of_comparisons"], cnt / npairs, t32, t32):
-            return f"comparison vector {g}: proportion {x['proportion_of_comparisons']} but {cnt}/{npairs}"
-        sg = sum(0 if v == -1 else (-1 if v == 0 else v) for v in g)
-        if x["sum_gam"] != sg or str(x["gam_concat"]) != ",".join(str(v) for v in g):  # one comparison: gam_concat is the integer column itself
-            return f"comparison vector {g}: sum_gam/gam_concat {x['sum_gam']}/{x['gam_concat']}"
-        if last is not None and sg < last:
-            return "comparison vector distribution is not ordered by sum_gam"
-        last = sg
-        tot += cnt
-        totp += x["proportion_of_comparisons"]
-    if tot != npairs or seen != set(pv):
-        return f"comparison-vector counts add up to {tot} for {npairs} scored pairs"
-    if npairs and abs(totp - 1.0) > max(1e-9, t32 * len(seen)):
-        return f"comparison-vector proportions add up to {totp}"
-    # ---- histogram
-    ws = [p["match_weight"] for p in r["predict"]]
-    if r["hist"] is not None:
-        bws = {x["binwidth"] for x in r["hist"]}
-        if len(bws) != 1:
-            return f"histogram rows carry different bin widths {bws}"
-        bw = bws.pop()
-        rough = (max(ws) - min(ws)) / case["nbins"]
-        if bw not in BIN_WIDTHS or any(abs(b - rough) < abs(bw - rough) - 1e-12 for b in BIN_WIDTHS):
-            return f"bin width {bw} is not the listed width closest to (max-min)/num_bins = {rough}"
-        if sum(x["count_rows"] for x in r["hist"]) != npairs:
-            return f"histogram counts add up to {sum(x['count_rows'] for x in r['hist'])} for {npairs} scored pairs"
-        lows = [x["splink_score_bin_low"] for x in r["hist"]]
-        if any(b <= a for a, b in zip(lows, lows[1:])):
-            return "histogram bins are not strictly ascending (a bin is listed twice or out of order)"
-        for x in r["hist"]:
-            lo = x["splink_score_bin_low"]
-            kq = lo / bw
-            if abs(kq - round(kq)) > 1e-6:
-                return f"bin low {lo} is not a multiple of the width {bw}"
-            if not core.close(x["splink_score_bin_high"], lo + bw, 1e-6, 1e-7):
-                return f"bin [{lo}, {x['splink_score_bin_high']}) is not {bw} wide"
-            eps = 1e-9 * max(1.0, abs(lo))
-            strict = sum(1 for w in ws if lo + eps <= w < lo + bw - eps)
-            loose = sum(1 for w in ws if lo - eps <= w < lo + bw + eps)
-            if not (strict <= x["count_rows"] <= loose) or x["count_rows"] == 0:
-                return f"bin [{lo}, {lo + bw}) reports {x['count_rows']} pairs; between {strict} and {loose} scored pairs have their weight in it"
-    # ---- unlinkables
-    sp_ = sorted(p for _, p in r["self"])
-    if len(sp_) != n:
-        return f"self-link scores {len(sp_)} rows for {n} records"
-    indep = sorted(self_probability(case, x)[0] for x in recs)
-    if any(not core.close(a, b, 1e-9) for a, b in zip(sp_, indep)):
-        return f"self-match probabilities {sp_} differ from the Fellegi-Sunter value of each record compared with itself {indep}"
-    if not any(knife(p, 1e5) for p in sp_):
-        rounded = [half_away(p, 1e5) for p in sp_]
-        listed = sorted({q for q in rounded if q < 100000})
-        got = r["unl"]
-        gl = [x["match_probability"] for x in got]
-        if len(gl) != len(listed) or any(not core.close(a, b / 1e5, 1e-9) for a, b in zip(gl, listed)):
-            return f"unlinkables lists probabilities {gl}; the rounded self-match probabilities below 1 are {[q / 1e5 for q in listed]}"
-        tcum = 1e-6 if case["engine"] == "duckdb" else 1e-12
-        for x, q in zip(got, listed):
-            share = sum(1 for v in rounded if v <= q) / n
-            own = sum(1 for v in rounded if v == q) / n
-            if not core.close(x["cum_prop"], share, tcum, tcum):
-                return f"unlinkables at p = {q / 1e5}: cum_prop {x['cum_prop']} but {share} of the records score at or below it"
-            if not core.close(x["prop"], own, t32, t32):
-                return f"unlinkables at p = {q / 1e5}: prop {x['prop']} but {own} of the records score exactly it"
-            grp = [w for w, p in r["self"] if half_away(p, 1e5) == q]
-            if not any(knife(w, 1e2) for w in grp) and not core.close(x["match_weight"], max(half_away(w, 1e2) for w in grp) / 100, 1e-9):
-                return f"unlinkables at p = {q / 1e5}: match_weight {x['match_weight']} but the largest rounded weight of the group is {max(half_away(w, 1e2) for w in grp) / 100}"
-    return None
+
+    def sec_sequence():
+        if r.get("repeat_differs"):
+            return f"the same call made twice on one linker / one database API gave two different answers: {r['repeat_differs']}"
+        return None
+
+    def sec_tf():
+        for col in COLS:
+            want = tf_of(case, col)
+            got = r["tf"][col]
+            if len({v for v, _ in got}) != len(got):
+                return f"tf table of {col} lists a value twice: {got}"
+            if {v for v, _ in got} != set(want):
+                return f"tf table of {col} lists values {sorted(map(str, (v for v, _ in got)))} but the non-null values are {sorted(map(str, want))}"
+            for v, t in got:
+                if not core.close(t, want[v], 1e-12):
+                    return f"tf_{col}({v}) = {t} but its relative frequency among non-null values is {want[v]}"
+            if got and not core.close(sum(t for _, t in got), 1.0, 1e-9):
+                return f"tf table of {col} sums to {sum(t for _, t in got)}"
+        return None
+
+    def sec_scoring():
+        tfcols = sorted({c["col"] for c in case["comparisons"] if any("tf" in l for l in c["levels"])})
+        if len(r["concat"]) != n or sorted(map(str, (rkey(case, x) for x in r["concat"]))) != sorted(str((x["source_dataset"], x["unique_id"])) for x in recs):
+            return f"__splink__df_concat_with_tf has {len(r['concat'])} rows for {n} input records (the TF join must neither drop nor duplicate records)"
+        for x in r["concat"]:
+            for col in tfcols:
+                w = None if x[col] is None else tf_of(case, col).get(x[col], float("nan"))  # nan: a value the data do not have
+                if not core.close(x.get(f"tf_{col}"), w, 1e-12):
+                    return f"record {rkey(case, x)} carries tf_{col} = {x.get(f'tf_{col}')} for value {x[col]!r}; the TF table says {w}"
+        for p in r["predict"]:
+            for col in tfcols:
+                for side in ("l", "r"):
+                    v = p.get(f"{col}_{side}")
+                    w = None if v is None else tf_of(case, col).get(v, float("nan"))
+                    if f"tf_{col}_{side}" not in p or not core.close(p[f"tf_{col}_{side}"], w, 1e-12):
+                        return f"scored pair uses tf_{col}_{side} = {p.get(f'tf_{col}_{side}')} for value {v!r}; the TF table says {w}"
+        return None
+
+    def sec_completeness():
+        if "compl" in r:
+            cols = case["compl_cols"] or compl_canon_cols(case)
+            names = compl_names(case) or [f"input_data_{i + 1}" for i in range(n_inputs(case))]
+            want = {}
+            for ti, rows in enumerate(compl_groups(case)):
+                for col in cols:
+                    nn = sum(1 for x in rows if x[col] is not None)
+                    if rows:  # an empty table has no group: no row, no share
+                        want[(names[ti], col)] = (len(rows) - nn, len(rows), nn / len(rows))
+            got = {}
+            if r["compl"] and all(x["source_dataset"] is None for x in r["compl"]):
+                return f"completeness rows do not name their dataset (source_dataset is NULL in all {len(r['compl'])} rows); the datasets are {names}"
+            for x in r["compl"]:
+                key = (x["source_dataset"], x["column_name"])
+                if key in got:
+                    return f"completeness lists {key} twice"
+                got[key] = (x["total_null_rows"], x["total_rows_inc_nulls"], x["completeness"])
+            if set(got) != set(want):
+                return f"completeness rows {sorted(map(str, got))} but the (dataset, column) pairs are {sorted(map(str, want))}"
+            for key, (nul, tot, comp) in want.items():
+                g = got[key]
+                if g[0] != nul or g[1] != tot or not core.close(g[2], comp, t32, t32):
+                    return f"completeness of {key}: (nulls, rows, completeness) = {g} but a recount gives {(nul, tot, comp)}"
+        return None
+
+    def sec_cvd():
+        if case["thr"] is None or (case["thr"] == 0 and case.get("thr_kind", "prob") == "prob"):  # a probability threshold of 0 keeps every pair
+            sp = scored_pairs(case)
+            if npairs != len(sp):
+                return f"predict scored {npairs} pairs; the blocking rules and link type admit {len(sp)}"
+            indep = sorted(tuple(gamma_of(c, x[c["col"]], y[c["col"]])[0] for c in case["comparisons"]) for x, y in sp)
+            if indep != sorted(pv):
+                return "gamma vectors of the scored pairs differ from an independent evaluation of the levels"
+        seen = set()
+        tot, totp = 0, 0.0
+        last = None
+        for x in r["cvd"]:
+            g = tuple(x[c] for c in gcols)
+            if g in seen:
+                return f"comparison vector {g} listed twice"
+            seen.add(g)
+            cnt = x["count_rows_in_comparison_vector_group"]
+            if cnt != pv.count(g) or cnt == 0:
+                return f"comparison vector {g}: count {cnt} but {pv.count(g)} scored pairs have it"
+            if not core.close(x["proportion_of_comparisons"], cnt / npairs, t32, t32):
+                return f"comparison vector {g}: proportion {x['proportion_of_comparisons']} but {cnt}/{npairs}"
+            sg = sum(0 if v == -1 else (-1 if v == 0 else v) for v in g)
+            if x["sum_gam"] != sg or str(x["gam_concat"]) != ",".join(str(v) for v in g):  # one comparison: gam_concat is the integer column itself
+                return f"comparison vector {g}: sum_gam/gam_concat {x['sum_gam']}/{x['gam_concat']}"
+            if last is not None and sg < last:
+                return "comparison vector distribution is not ordered by sum_gam"
+            last = sg
+            tot += cnt
+            totp += x["proportion_of_comparisons"]
+        if tot != npairs or seen != set(pv):
+            return f"comparison-vector counts add up to {tot} for {npairs} scored pairs"
+        if npairs and abs(totp - 1.0) > max(1e-9, t32 * len(seen)):
+            return f"comparison-vector proportions add up to {totp}"
+        return None
+
+    def sec_histogram():
+        ws = [p["match_weight"] for p in r["predict"]]
+        if r["hist"] is not None:
+            bws = {x["binwidth"] for x in r["hist"]}
+            if len(bws) != 1:
+                return f"histogram rows carry different bin widths {bws}"
+            bw = bws.pop()
+            rough = (max(ws) - min(ws)) / case["nbins"]
+            if bw not in BIN_WIDTHS or any(abs(b - rough) < abs(bw - rough) - 1e-12 for b in BIN_WIDTHS):
+                return f"bin width {bw} is not the listed width closest to (max-min)/num_bins = {rough}"
+            if sum(x["count_rows"] for x in r["hist"]) != npairs:
+                return f"histogram counts add up to {sum(x['count_rows'] for x in r['hist'])} for {npairs} scored pairs"
+            lows = [x["splink_score_bin_low"] for x in r["hist"]]
+            if any(b <= a for a, b in zip(lows, lows[1:])):
+                return "histogram bins are not strictly ascending (a bin is listed twice or out of order)"
+            for x in r["hist"]:
+                lo = x["splink_score_bin_low"]
+                kq = lo / bw
+                if abs(kq - round(kq)) > 1e-6:
+                    return f"bin low {lo} is not a multiple of the width {bw}"
+                if not core.close(x["splink_score_bin_high"], lo + bw, 1e-6, 1e-7):
+                    return f"bin [{lo}, {x['splink_score_bin_high']}) is not {bw} wide"
+                eps = 1e-9 * max(1.0, abs(lo))
+                strict = sum(1 for w in ws if lo + eps <= w < lo + bw - eps)
+                loose = sum(1 for w in ws if lo - eps <= w < lo + bw + eps)
+                if not (strict <= x["count_rows"] <= loose) or x["count_rows"] == 0:
+                    return f"bin [{lo}, {lo + bw}) reports {x['count_rows']} pairs; between {strict} and {loose} scored pairs have their weight in it"
+        return None
+
+    def sec_unlinkables():
+        sp_ = sorted(p for _, p in r["self"])
+        if len(sp_) != n:
+            return f"self-link scores {len(sp_)} rows for {n} records"
+        indep = sorted(self_probability(case, x)[0] for x in recs)
+        if any(not core.close(a, b, 1e-9) for a, b in zip(sp_, indep)):
+            return f"self-match probabilities {sp_} differ from the Fellegi-Sunter value of each record compared with itself {indep}"
+        if not any(knife(p, 1e5) for p in sp_):
+            rounded = [half_away(p, 1e5) for p in sp_]
+            listed = sorted({q for q in rounded if q < 100000})
+            got = r["unl"]
+            gl = [x["match_probability"] for x in got]
+            if len(gl) != len(listed) or any(not core.close(a, b / 1e5, 1e-9) for a, b in zip(gl, listed)):
+                return f"unlinkables lists probabilities {gl}; the rounded self-match probabilities below 1 are {[q / 1e5 for q in listed]}"
+            tcum = 1e-6 if case["engine"] == "duckdb" else 1e-12
+            for x, q in zip(got, listed):
+                share = sum(1 for v in rounded if v <= q) / n
+                own = sum(1 for v in rounded if v == q) / n
+                if not core.close(x["cum_prop"], share, tcum, tcum):
+                    return f"unlinkables at p = {q / 1e5}: cum_prop {x['cum_prop']} but {share} of the records score at or below it"
+                if not core.close(x["prop"], own, t32, t32):
+                    return f"unlinkables at p = {q / 1e5}: prop {x['prop']} but {own} of the records score exactly it"
+                grp = [w for w, p in r["self"] if half_away(p, 1e5) == q]
+                if not any(knife(w, 1e2) for w in grp) and not core.close(x["match_weight"], max(half_away(w, 1e2) for w in grp) / 100, 1e-9):
+                    return f"unlinkables at p = {q / 1e5}: match_weight {x['match_weight']} but the largest rounded weight of the group is {max(half_away(w, 1e2) for w in grp) / 100}"
+        return None
+
+    def sec_tfchart():
+        ch = r.get("tfchart")
+        if not ch:
+            return None
+        tc = case["tfchart"]
+        comp = case["comparisons"][tc["comp"]]
+        want = tf_of(case, comp["col"])
+        nn = [l for l in comp["levels"] if l["kind"] != "null"]
+        lvl = next(l for l in nn if "tf" in l)
+        gam = len(nn) - 1 - nn.index(lvl)
+        rows = ch["data"]
+        big = len(want)
+        vals = [x["value"] for x in rows]
+        if len(set(vals)) != len(vals) or any(x["gamma"] != gam for x in rows):
+            return f"tf_adjustment_chart lists a value twice or under another level than {gam}: {[(x['value'], x['gamma']) for x in rows]}"
+        for x in rows:
+            if x["value"] not in want or not core.close(x["tf"], want[x["value"]], 1e-12):
+                return f"tf_adjustment_chart shows tf = {x['tf']} for {x['value']!r}; its relative frequency among non-null values is {want.get(x['value'])}"
+            if x["most_freq_rank"] + x["least_freq_rank"] != big - 1:
+                return f"tf_adjustment_chart ranks {x['value']!r} {x['most_freq_rank']} from the top and {x['least_freq_rank']} from the bottom among {big} values"
+            if lvl["tf"]["minU"] <= x["tf"] and not core.close(x["log2_bf_tf"], math.log2(lvl["u"] / x["tf"]) * lvl["tf"]["weight"], 1e-9, 1e-9):
+                return f"tf_adjustment_chart shows log2_bf_tf = {x['log2_bf_tf']} for {x['value']!r} (tf {x['tf']}, u {lvl['u']}, weight {lvl['tf']['weight']})"
+        n_most = 10 if tc["n_most"] == "default" else tc["n_most"]
+        n_least = 10 if tc["n_least"] == "default" else tc["n_least"]
+        asked = [v for v in (tc["include"] or []) if v in want]
+        if any(v not in vals for v in asked):
+            return f"tf_adjustment_chart omits the values asked for {asked}: {vals}"
+        if n_most is None or n_least is None:  # documented: all values are shown
+            if len(rows) != big:
+                return f"tf_adjustment_chart shows {len(rows)} of the {big} values although all were asked for (n_most_freq / n_least_freq None)"
+        else:
+            by_rank = [x for x in rows if x["most_freq_rank"] < n_most or x["least_freq_rank"] < n_least]
+            extra = [x["value"] for x in rows if x not in by_rank]
+            if len(by_rank) != min(big, n_most + n_least) or any(v not in asked for v in extra):
+                return f"tf_adjustment_chart shows {len(by_rank)} values by rank (+ {extra}) for n_most_freq = {n_most}, n_least_freq = {n_least}, {big} values, asked for {asked}"
+            tfs = sorted(want.values())
+            top = sorted(x["tf"] for x in rows if x["most_freq_rank"] < n_most)
+            low = sorted(x["tf"] for x in rows if x["least_freq_rank"] < n_least)
+            # the chart ranks by the TF adjustment: with an adjustment weight of 0 every value ties and the ranks say nothing about frequency
+            if lvl["tf"]["weight"] > 0 and (any(not core.close(a, b, 1e-12) for a, b in zip(top, tfs[-n_most:])) or any(not core.close(a, b, 1e-12) for a, b in zip(low, tfs[:n_least]))):
+                return f"tf_adjustment_chart: the {n_most} most / {n_least} least frequent values shown have tf {top} / {low}; the term frequencies are {tfs}"
+        if ch["hist_total"] > big:
+            return f"tf_adjustment_chart histogram counts {ch['hist_total']} values; the column has {big}"
+        return None
+
+    out = [("raised", f"real code raised {e['error']} in {e['call']}") for e in r.get("raised") or []]
+    for f in (sec_sequence, sec_tf, sec_scoring, sec_tfchart, sec_completeness, sec_cvd, sec_histogram, sec_unlinkables):
+        m = f()
+        if m is not None:
+            out.append((f.__name__[4:], m))
+    return out
+
+
+def verdict(case, r):
+    """The first failure (None = the property holds on this output)."""
+    v = verdicts(case, r)
+    return v[0][1] if v else None
 
 
 # --------------------------------------------------------------------------- model
@@ -499,10 +1088,12 @@ def model_request(case, r):
     def code(c, v):
         return None if v is None else codes[c].setdefault(v, len(codes[c]))
 
-    cols = [[code(c, x[c]) for x in recs] for c in ["unique_id"] + COLS]
+    allc = compl_canon_cols(case)
+    codes.setdefault("source_dataset", {})
+    cols = [[code(c, x[c] if c != "source_dataset" else ALIASES[x["_t"]]) for x in recs] for c in allc]
     gcols = [f"gamma_{c['col']}{i}" for i, c in enumerate(case["comparisons"])]
     req = {
-        "op": "descriptive", "sd": [x["_t"] for x in recs], "cols": cols, "tfcols": [1, 2, 3],
+        "op": "descriptive", "sd": [0 if case.get("preconcat") else x["_t"] for x in recs], "cols": cols, "tfcols": [1, 2, 3],
         "gammas": [[int(p[g]) for g in gcols] for p in r["predict"]],
         "weights": [core.f2b(p["match_weight"]) for p in r["predict"]], "nbins": case["nbins"],
         "self": [[core.f2b(w), core.f2b(p)] for w, p in r["self"]],
@@ -510,18 +1101,18 @@ def model_request(case, r):
     return req, codes
 
 
-def compare_model(case, r, m, codes):
-    """None, or how the real output differs from the Lean model."""
+def compare_model(case, r, m, codes, skip=()):
+    """None, or how the real output differs from the Lean model (`skip`: sections the oracle has already rejected on the real output)."""
     recs = records(case)
     t32 = tol32(case)
-    for ci, col in enumerate(COLS):
+    for ci, col in enumerate(COLS if "tf" not in skip else []):
         inv = {v: k for k, v in codes[col].items()}
         mt = {inv[v]: num / den for v, num, den in m["tf"][ci]}
         rt = {v: t for v, t in r["tf"][col]}
         if set(mt) != set(rt) or any(not core.close(mt[v], rt[v], 1e-12) for v in mt):
             return f"tf table {col}: impl {rt} model {mt}"
-    tfcols = sorted({c["col"] for c in case["comparisons"] if any("tf" in l for l in c["levels"])})
-    by = {rkey(x): x for x in r["concat"]}
+    tfcols = sorted({c["col"] for c in case["comparisons"] if any("tf" in l for l in c["levels"])}) if "scoring" not in skip and "tf" not in skip else []
+    by = {rkey(case, x): x for x in r["concat"]}
     for col in tfcols:
         mj = m["tfjoin"][COLS.index(col)]
         if len(mj) != len(recs) or len(r["concat"]) != len(recs):
@@ -530,9 +1121,9 @@ def compare_model(case, r, m, codes):
             got = by[(x["source_dataset"], x["unique_id"])].get(f"tf_{col}")
             if not core.close(got, None if e is None else e[0] / e[1], 1e-12):
                 return f"tf join {col} record {x['source_dataset'], x['unique_id']}: impl {got} model {e}"
-    if "compl" in r:
-        allc = ["unique_id"] + COLS
-        names = compl_names(case) or [f"input_data_{i + 1}" for i in range(len(case["tables"]))]
+    if "compl" in r and "completeness" not in skip:
+        allc = compl_canon_cols(case)
+        names = compl_names(case) or [f"input_data_{i + 1}" for i in range(n_inputs(case))]
         mm = {}
         for col in case["compl_cols"] or allc:
             for sd, nul, tot, nn in m["compl"][allc.index(col)]:
@@ -543,11 +1134,13 @@ def compare_model(case, r, m, codes):
     gcols = [f"gamma_{c['col']}{i}" for i, c in enumerate(case["comparisons"])]
     mc = {tuple(g): (sg, cnt, cnt / tot) for g, sg, cnt, tot in m["cvd"]}
     rc = {tuple(x[c] for c in gcols): (x["sum_gam"], x["count_rows_in_comparison_vector_group"], x["proportion_of_comparisons"]) for x in r["cvd"]}
-    if set(mc) != set(rc) or len(rc) != len(r["cvd"]) or any(mc[k][:2] != tuple(rc[k][:2]) or not core.close(mc[k][2], rc[k][2], t32, t32) for k in mc):
+    if "cvd" not in skip and (set(mc) != set(rc) or len(rc) != len(r["cvd"]) or any(mc[k][:2] != tuple(rc[k][:2]) or not core.close(mc[k][2], rc[k][2], t32, t32) for k in mc)):
         return f"comparison vector distribution: impl {rc} model {mc}"
-    if (r["hist"] is None) != (m["hist"] is None):
+    if "histogram" in skip:
+        pass
+    elif (r["hist"] is None) != (m["hist"] is None):
         return f"histogram: impl {r['hist']} model {m['hist']}"
-    if r["hist"] is not None:
+    elif r["hist"] is not None:
         bw = core.b2f(m["hist"]["bw"])
         if any(x["binwidth"] != bw for x in r["hist"]):
             return f"histogram bin width: impl {[x['binwidth'] for x in r['hist']]} model {bw}"
@@ -555,7 +1148,7 @@ def compare_model(case, r, m, codes):
         rb = sorted((x["splink_score_bin_low"], x["count_rows"]) for x in r["hist"])
         if len(mb) != len(rb) or any(not core.close(a[0], b[0], 1e-12) or a[1] != b[1] for a, b in zip(mb, rb)):
             return f"histogram bins: impl {rb} model {mb}"
-    if not any(knife(p, 1e5) for _, p in r["self"]) and not any(knife(w, 1e2) for w, _ in r["self"]):
+    if "unlinkables" not in skip and not any(knife(p, 1e5) for _, p in r["self"]) and not any(knife(w, 1e2) for w, _ in r["self"]):
         mu = sorted((p, w, cnt, cum, tot) for w, p, cnt, cum, tot in m["unl"])
         ru = sorted(r["unl"], key=lambda x: x["match_probability"])
         tcum = 1e-6 if case["engine"] == "duckdb" else 1e-12
@@ -664,9 +1257,208 @@ def check_wide(ctx, drv):
     return problems
 
 
+# --------------------------------------------------------------------------- profile_columns (audit: oracle only, no Lean model)
+PROFILE_EXPRS = [None, None, ["a"], ["c", "a"], ["b", "unique_id"], [["a", "b"]], ["lower:a"], ["a", ["b", "c"]]]
+
+
+def gen_profile_case(rng: random.Random, engine: str):
+    """splink.exploratory.profile_columns (anchored file profile_data.py): per column expression the value counts, the distribution
+    of value counts with cumulative shares, and the top / bottom n values."""
+    k = rng.choice([1, 1, 2, 3])
+    tables, profile = gen_tables(rng, k, rng.choice([4, 8, 12]), "str" if rng.random() < 0.2 else "int")
+    exprs = rng.choice(PROFILE_EXPRS)
+    if engine == "sqlite" and exprs and any(isinstance(e, list) for e in exprs):
+        exprs = [e for e in exprs if not isinstance(e, list)] or None  # SQLite < 3.44 has no concat()
+    case = {"engine": engine, "tables": tables, "profile": profile, "exprs": exprs, "top_n": rng.choice([None, None, 1, 2, 3, 10]),
+            "bottom_n": rng.choice([None, None, 1, 2, 5]), "form": rng.choice(["frame", "frame", "name"]), "bare_single": rng.random() < 0.5,
+            "colperm": rng.random() < 0.3, "shuffle": rng.randrange(1 << 30), "sequence": rng.choice([None, None, None, "twice", "rereg"]), "tag": "profile"}
+    case["id_type"] = "str" if any(isinstance(r["unique_id"], str) for t in tables for r in t) else "int"
+    if case["sequence"] == "rereg":
+        case["form"] = "name"
+        case["prelude"], _ = gen_tables(rng, k, 6, case["id_type"])
+    return case
+
+
+def run_profile(case):
+    from splink.exploratory import profile_columns
+    from splink.internals.column_expression import ColumnExpression
+
+    sess = _Session(case, case["engine"])
+
+    def exprs():
+        if case["exprs"] is None:
+            return None
+        return [ColumnExpression(e[6:]).lower() if isinstance(e, str) and e.startswith("lower:") else e for e in case["exprs"]]
+
+    def call(tables, again):
+        handed = sess.hand_over(tables, again)
+        arg = handed[0] if len(handed) == 1 and case["bare_single"] else handed
+        kw = {}
+        if exprs() is not None:
+            kw["column_expressions"] = exprs()
+        if case["top_n"] is not None:
+            kw["top_n"] = case["top_n"]
+        if case["bottom_n"] is not None:
+            kw["bottom_n"] = case["bottom_n"]
+        chart = profile_columns(arg, sess.api, **kw)
+        if chart is None:
+            return []
+        return [[h["data"]["values"] for h in inner["hconcat"]] for inner in chart.to_dict()["vconcat"]]
+
+    if case["sequence"] == "rereg":
+        call(case["prelude"], False)
+        return {"charts": call(None, True)}
+    first = call(None, False)
+    if case["sequence"] == "twice":
+        return {"charts": call(None, False), "first": first}  # both answers are recounted (ties among the top / bottom values may be broken differently)
+    return {"charts": first}
+
+
+run_profile_safe = core.safe(run_profile)
+
+
+def group_name(expr_sql):
+    import re
+
+    return re.sub(r"\s+", "_", re.sub(r"[^0-9a-zA-Z_]", " ", expr_sql))
+
+
+def sql_text(v):
+    """cast(v as varchar)"""
+    return v if isinstance(v, str) else str(v)
+
+
+def verdict_profile(case, r):
+    """profile_columns recounted: None = every figure of every chart is a recount of the data."""
+    if "first" in r:
+        v = verdict_profile_charts(case, r["first"])
+        if v is not None:
+            return v
+    v = verdict_profile_charts(case, r["charts"])
+    return v if v is None or "first" not in r else "second call on the same database API: " + v
+
+
+def verdict_profile_charts(case, charts):
+    from collections import Counter
+
+    rows = [x for t in case["tables"] for x in t]
+    t32 = 2e-7 if case["engine"] == "duckdb" else 1e-12
+    exprs = case["exprs"] if case["exprs"] is not None else list(types_of(case))
+    top_n = 10 if case["top_n"] is None else case["top_n"]
+    bottom_n = 10 if case["bottom_n"] is None else case["bottom_n"]
+    want = []
+    for e in exprs:
+        if isinstance(e, list):
+            vals = [None if any(x[c] is None for c in e) else " ".join(sql_text(x[c]) for c in e) for x in rows]
+            gn = group_name("concat(" + ", ' ', ".join(e) + ")")
+        elif e.startswith("lower:"):
+            vals = [None if x[e[6:]] is None else x[e[6:]].lower() for x in rows]
+            gn = None
+        else:
+            vals = [x[e] for x in rows]
+            gn = group_name(f'"{e}"') if case["exprs"] is None else group_name(e)
+        nn = [v for v in vals if v is not None]
+        if nn:
+            want.append((e, gn, Counter(sql_text(v) for v in nn), len(nn), len(vals)))
+    if len(charts) != len(want):
+        return f"profile_columns drew {len(charts)} charts; {len(want)} of the expressions {exprs} have a non-null value"
+    for (e, gn, counts, nnn, tot), (perc, top, bottom) in zip(want, charts):
+        def totals_ok(x):
+            return x["total_non_null_rows"] == nnn and x["total_rows_inc_nulls"] == tot and x["distinct_value_count"] == len(counts) and (gn is None or x["group_name"] == gn)
+        for x in perc + top + bottom:
+            if not totals_ok(x):
+                return f"profile of {e}: row {x} but the column has {nnn} non-null of {tot} rows, {len(counts)} distinct values (group {gn})"
+        # distribution of value counts: one row per distinct count, cumulative from the most frequent values down, plus the 100% row
+        by_count = Counter(counts.values())
+        levels = sorted(by_count, reverse=True)
+        exp, cum = [], 0
+        for vc in levels:
+            cum += vc * by_count[vc]
+            exp.append((vc, vc * by_count[vc], 1 - cum / nnn, 1 - cum / tot))
+        exp.append((levels[0], levels[0] * by_count[levels[0]], 1.0, 1.0))
+        got = sorted(((x["value_count"], x["sum_tokens_in_value_count_group"], x["percentile_ex_nulls"], x["percentile_inc_nulls"]) for x in perc), key=lambda t: (-t[0], t[2]))
+        exp_sorted = sorted(exp, key=lambda t: (-t[0], t[2]))
+        if len(got) != len(exp_sorted) or any(a[0] != b[0] or a[1] != b[1] or not core.close(a[2], b[2], t32, t32) or not core.close(a[3], b[3], t32, t32) for a, b in zip(got, exp_sorted)):
+            return f"profile of {e}: distribution rows (value_count, tokens, percentile_ex_nulls, percentile_inc_nulls) {got} but a recount gives {exp_sorted}"
+        for name, listed, n_, rev in (("top", top, top_n, True), ("bottom", bottom, bottom_n, False)):
+            vals = [x["value"] for x in listed]
+            if len(set(vals)) != len(vals) or any(v not in counts or counts[v] != x["value_count"] for v, x in zip(vals, listed)):
+                return f"profile of {e}: {name} values {[(x['value'], x['value_count']) for x in listed]} but the value counts are {dict(counts)}"
+            best = sorted(counts.values(), reverse=rev)[:n_]
+            if sorted((x["value_count"] for x in listed), reverse=rev) != best:
+                return f"profile of {e}: the {name} {n_} values have counts {[x['value_count'] for x in listed]}; the {name} {n_} counts are {best}"
+    return None
+
+
+def check_profile(ctx, cases=None):
+    if cases is None:
+        cases = [gen_profile_case(ctx.rng, e) for e in ("duckdb", "sqlite") for _ in range(ctx.budget(25, 250))]
+    res = core.pmap(run_profile_safe, cases)
+    problems = []
+    for c, r in zip(cases, res):
+        n = sum(len(t) for t in c["tables"])
+        ctx.case({k: c[k] for k in ("tables", "exprs", "top_n", "bottom_n", "engine", "form", "sequence")}, n >= 3)
+        ctx.count("family", "profile_columns")
+        ctx.count("profile_expressions", "all columns" if c["exprs"] is None else "+".join("concat" if isinstance(e, list) else ("lower" if e.startswith("lower:") else "column") for e in c["exprs"]))
+        ctx.count("profile_top_n", c["top_n"]); ctx.count("profile_bottom_n", c["bottom_n"]); ctx.count("profile_sequence", c["sequence"]); ctx.count("profile_form", c["form"])
+        ctx.count("profile_engine", c["engine"]); ctx.count("profile_tables", len(c["tables"]))
+        if core.impl_error(r):
+            problems.append((c, f"real code raised {r['__error__']} in profile_columns: {r['text'][:300]}", True))
+            continue
+        v = verdict_profile(c, r)
+        if v is not None:
+            problems.append((c, v, True))
+            continue
+        ctx.traces_validated += 1
+    return problems
+
+
 # --------------------------------------------------------------------------- driver of the comparison
+OPTION_KEYS = ("tfchart", "pred_form", "id_type", "preconcat", "colperm", "colnames", "form", "aliases", "bare_single", "api_shared", "via", "x_col", "repeat", "unl_first",
+               "fail_first", "thr_kind", "session", "prelude")
+
+
 def canon(case):
-    return {k: case[k] for k in ("tables", "comparisons", "link_type", "engine", "blocking", "nbins", "thr", "prior", "compl_cols")}
+    out = {k: case[k] for k in ("tables", "comparisons", "link_type", "engine", "blocking", "nbins", "thr", "prior", "compl_cols")}
+    out.update({k: case[k] for k in OPTION_KEYS if case.get(k) not in (None, False)})
+    return out
+
+
+def count_options(ctx, c):
+    """Evidence for the audit's families."""
+    ctx.count("input_form", c.get("form", "frame"))
+    ctx.count("input_aliases", "given" if c.get("aliases", True) else "none")
+    ctx.count("entry_points", c.get("via", "internal"))
+    ctx.count("id_type", c.get("id_type", "int"))
+    ctx.count("layout", "preconcatenated_with_source_dataset_column" if c.get("preconcat") else "one_table_per_dataset")
+    if any(not t for t in c["tables"]):
+        ctx.count("layout", "with_an_empty_table")
+    if c.get("colperm"):
+        ctx.count("layout", "columns_in_another_order")
+    if len(c["tables"]) == 1 or c.get("preconcat"):
+        ctx.count("single_input", "bare" if c.get("bare_single") else "in_a_list")
+    for canon_name, act in (c.get("colnames") or {}).items():
+        ctx.count("renamed_column", f"{canon_name}->{act}")
+    ctx.count("columns_renamed", bool(c.get("colnames")))
+    ctx.count("one_api_for_completeness_and_linker", bool(c.get("api_shared")))
+    ctx.count("sequence", c.get("session") or ("each_call_twice" if c.get("repeat") else "none"))
+    if c.get("prelude") is not None:
+        ctx.count("tables_registered_anew", sum(1 for a, b in zip(c["prelude"], c["tables"]) if a != b))
+    if c.get("via") == "public" and c.get("tfchart"):
+        tc = c["tfchart"]
+        ctx.count("tf_adjustment_chart_n_most_freq", tc["n_most"]); ctx.count("tf_adjustment_chart_n_least_freq", tc["n_least"])
+        ctx.count("tf_adjustment_chart_vals_to_include", "not given" if tc["include"] is None else f"{len(tc['include'])} values")
+    ctx.count("predictions_table", c.get("pred_form", "computed"))
+    ctx.count("unlinkables_before_predict", bool(c.get("unl_first")))
+    ctx.count("failing_calls_first", bool(c.get("fail_first")))
+    ctx.count("threshold", "none" if c["thr"] is None else f"{c.get('thr_kind', 'prob')}{'=0' if c['thr'] == 0 else ''}")
+    cols = [cc["col"] for cc in c["comparisons"]]
+    ctx.count("column_in_several_comparisons", len(set(cols)) < len(cols))
+    ctx.count("tf_adjusted_int_column", any("tf" in l for cc in c["comparisons"] if cc["col"] == "c" for l in cc["levels"]))
+    ctx.count("dyadic_m_u", all(l["m"] in (0.5, 0.25, 0.125, 0.0625) and l["u"] in (0.5, 0.25, 0.125, 0.0625) for cc in c["comparisons"] for l in cc["levels"] if "m" in l))
+    vals = [r[col] for t in c["tables"] for r in t for col in ("a", "b")]
+    ctx.count("has_empty_string", "" in vals)
+    ctx.count("has_case_or_blank_variants", any(v in ("Ann", "ann ", " ") for v in vals))
 
 
 def compare(ctx, cases, drv):
@@ -681,6 +1473,7 @@ def compare(ctx, cases, drv):
         ctx.count("engine", c["engine"]); ctx.count("n_tables", len(c["tables"])); ctx.count("link_type", c["link_type"]); ctx.count("tag", c["tag"])
         ctx.count("n_records", n); ctx.count("n_comparisons", len(c["comparisons"])); ctx.count("nbins", c["nbins"]); ctx.count("thresholded", c["thr"] is not None)
         ctx.count("blocking_rules", len(c["blocking"]))
+        count_options(ctx, c)
         for col, p in (c.get("profile") or {}).items():
             ctx.count("column_profile", p)
         ctx.count("tf_adjusted", any("tf" in l for cc in c["comparisons"] for l in cc["levels"]))
@@ -691,34 +1484,53 @@ def compare(ctx, cases, drv):
         ctx.count("scored_pairs", min(len(r["predict"]), 50) // 10 * 10)
         if c["engine"] == "sqlite":
             ctx.count("excluded", "completeness_data on sqlite (parenthesised UNION ALL members are not SQLite syntax; loud, the test-suite excludes it)")
+        if r["hist"] is not None and any(abs(p["match_weight"] / x["binwidth"] - round(p["match_weight"] / x["binwidth"])) < 1e-9 for p in r["predict"] for x in r["hist"][:1]):
+            ctx.count("weight_exactly_on_a_bin_edge", True)
+        if not r["unl"]:
+            ctx.count("unlinkables_listing", "empty")
         if r["hist"] is None:
             ctx.count("excluded", "histogram of an empty prediction table (no scored pair to partition; _bins raises TypeError on min = max = None)")
+        tc = c.get("tfchart")
+        if r.get("tfchart") and tc:
+            lvl = next(l for l in c["comparisons"][tc["comp"]]["levels"] if "tf" in l)
+            if any(x["tf"] < lvl["tf"]["minU"] for x in r["tfchart"]["data"]):
+                ctx.count("excluded", "tf_adjustment_chart: log2_bf_tf of a value rarer than tf_minimum_u_value (the chart ignores the minimum; the frequency itself is still recounted)")
+            if lvl["tf"]["weight"] == 0:
+                ctx.count("excluded", "tf_adjustment_chart: which values rank as most / least frequent when the adjustment weight is 0 (all tie)")
         if any(knife(p, 1e5) for _, p in r["self"]):
             ctx.count("excluded", "unlinkables listing: a self-match probability within 1e-9 of a rounding boundary")
-        v = verdict(c, r)
-        if v is not None:
+        vs = verdicts(c, r)
+        for _, v in vs:
             problems.append((c, v, True))
-            continue
-        todo.append((c, r))
-    built = [model_request(c, r) for c, r in todo]
+        # the sections the oracle accepts are still compared with the model (a standing defect in one output must not blind the others)
+        todo.append((c, r, tuple(sec for sec, _ in vs)))
+    built = [model_request(c, r) for c, r, _ in todo]
     mres = drv.pbatch([b[0] for b in built])
-    for (c, r), (req, codes), m in zip(todo, built, mres):
+    for (c, r, skip), (req, codes), m in zip(todo, built, mres):
         if "error" in m:
             raise core.HarnessError("model driver error: " + m["error"])
-        bad = compare_model(c, r, m, codes) or c20_sql.differs(ctx, m)
+        bad = compare_model(c, r, m, codes, skip) or c20_sql.differs(ctx, m)
         if bad:
             problems.append((c, "descriptive outputs differ from Lean model Descriptive: " + bad, False))
             continue
-        ctx.traces_validated += 1
+        if not skip:
+            ctx.traces_validated += 1
     return problems
 
 
-def impl_fails(case):
+def failures(case):
     r = run_impl_safe(case)
-    return "__error__" in r or verdict(case, r) is not None
+    if "__error__" in r:
+        return [classify(f"real code raised {r['__error__']}: {r['text'][:300]}")]
+    return [classify(v) for _, v in verdicts(case, r)]
 
 
-def shrink(case):
+def shrink(case, cls=None):
+    """Greedy shrinking that keeps the failure class `cls` (any failure when None)."""
+    def impl_fails(cand):
+        f = failures(cand)
+        return bool(f) if cls is None else cls in f
+
     cur = json.loads(json.dumps(case))
     budget = 30
     changed = True
@@ -730,6 +1542,7 @@ def shrink(case):
                     break
                 cand = json.loads(json.dumps(cur))
                 del cand["tables"][ti][ri]
+                cand = sanitize(cand)
                 budget -= 1
                 if impl_fails(cand):
                     cur, changed = cand, True
@@ -738,6 +1551,7 @@ def shrink(case):
                 break
             cand = json.loads(json.dumps(cur))
             del cand["comparisons"][ci]
+            cand = sanitize(cand)
             budget -= 1
             if impl_fails(cand):
                 cur, changed = cand, True
@@ -745,7 +1559,11 @@ def shrink(case):
 
 
 def classify(what):
-    for pat, cls in [("tf table", "term-frequency table is not the relative frequency"), ("tf_", "TF value used in scoring differs from the TF table"),
+    if what.startswith("real code raised") and " in " in what[:400] and what.rstrip().endswith(")"):
+        return "real code raised in " + what.rsplit(" in ", 1)[1]  # a guarded public entry point: one class per call shape
+    for pat, cls in [("the same call made twice", "a repeated call gave a different answer"),
+                     ("do not name their dataset", "completeness rows do not name their dataset"), ("tf_adjustment_chart", "tf_adjustment_chart is not a view of the term-frequency table"), ("profile", "profile_columns figures differ from a recount"),
+                     ("tf table", "term-frequency table is not the relative frequency"), ("tf_", "TF value used in scoring differs from the TF table"),
                      ("concat_with_tf", "TF join drops or duplicates records"), ("completeness", "completeness differs from a recount"),
                      ("predict scored", "scored pairs differ from the admissible blocked pairs"), ("gamma vectors", "gamma vectors differ"),
                      ("comparison vector", "comparison-vector distribution does not partition the scored pairs"), ("comparison-vector", "comparison-vector distribution does not partition the scored pairs"),
@@ -763,6 +1581,16 @@ def run(ctx: core.Ctx):
         "weight in {0,.3,.5,1} and minimum u in {0,.01,.2}) x prior x 0-2 equality blocking rules x link type x num_bins in {1,5,10,30,100} x optional probability threshold (20%) x "
         "completeness over all columns or a subset, default or given dataset names x TF tables computed before or after predict; duckdb 2/3, sqlite 1/3. "
         "+ adversarial families (all-NULL data, one record, identical records, probabilities rounding to 1, 1 and 100 bins) "
+        "+ audit dimensions drawn for every case: column profile 'tricky' (empty / blank strings, case and trailing-blank variants, negative and 2^33 ints), string ids (20%), an empty table (6% of "
+        "multi-table cases), ONE pre-concatenated table with its own source dataset column (10%), later tables listing the columns in another order (25%), renamed input columns "
+        "(blank inside, upper case, reserved words; unique id / source dataset column names non-default; 30%), tables handed over as frames / names of tables the caller registered "
+        "(names != aliases) / lists of records, with or without input_table_aliases, a single table bare or in a list, completeness and linker on one database API or two, internal data "
+        "functions or the public completeness_chart / match_weights_histogram (default target_bins when 30) / unlinkables_chart (x_col), one column in several comparisons, TF on the int column, "
+        "power-of-two m/u with prior 0.5 (integer weights on bin edges; 10%), num_bins 2/3/1000, predict(threshold_match_weight) and threshold_match_probability=0.0, unlinkables before predict, "
+        "failing calls first (unknown column, 0 bins), every call twice (8%), sequences (12%): invalidate_cache and again / other data first under the same names, then register_table(overwrite=True) "
+        "and the same calls on the same linker (with or without invalidate_cache) or on a new linker / a new linker over new frames without aliases "
+        "+ audit adversarial families (all probabilities round to 1, integer weights x bins, tricky values, every sequence kind, pre-concatenated x link type, empty table first / second) "
+        "+ profile_columns (oracle only): 1-3 tables x expressions (all columns, columns, concatenations, lower()) x top_n / bottom_n in {default,1,2,3,5,10} x frames / names x twice / re-registered data. "
         "+ exhaustive: every column of length 3 over {NULL,x,y} (27 columns) in one dataset split 3 / 1+2 / 2+1 over tables, both engines. "
         "non-trivial = at least 3 records and at least one scored pair; distinct = hash of (tables, model, link type, engine, blocking, bins, threshold, columns)."
     )
@@ -773,6 +1601,11 @@ def run(ctx: core.Ctx):
         "round(x,5)/round(x,2): rows whose value is within 1e-9 (relative 1e-4 of a unit) of a rounding boundary are excepted (DuckDB rounds x*10^k half away from zero, SQLite rounds the decimal expansion)",
         "histogram: a weight within 1e-9 of a bin edge may be counted in either neighbouring bin (bw*floor(w/bw) at Float)",
         "completeness_data does not run on SQLite (syntax); histogram_data raises on an empty prediction table: both loud, excluded and counted",
+        "a public chart function that raises is recorded and reported as a violation; the case continues with the internal data function so that the other outputs are still examined",
+        "tf_adjustment_chart (public entry points): every shown value carries its relative frequency, the values asked for are shown, the number shown follows n_most_freq / n_least_freq (None = all); "
+        "its log2_bf_tf is compared with log2(u/tf)*weight only where tf >= tf_minimum_u_value (the chart ignores the minimum), its ranking only for a positive adjustment weight",
+        "profile_columns has no Lean model: its figures are decided by the recount oracle alone; ties among equally frequent values may be broken either way in the top / bottom lists",
+        "a list of plain records carries no column types: that input form is only generated when every column of every table has a non-null value",
     ]
     sql_errs = c20_sql.prepare()  # Generated/DescSql.lean: the TF-table and completeness statements the code emits now, as Rel terms (T-sql)
     ctx.lean = core.lean_check(PROP, ctx.thorough)
@@ -782,7 +1615,7 @@ def run(ctx: core.Ctx):
     drv = core.Driver()
     if ctx.replay:
         cases = [json.loads(open(ctx.replay).read())["replay"]["case"]]
-        problems = compare(ctx, cases, drv)
+        problems = check_profile(ctx, cases) if cases[0].get("tag") == "profile" else compare(ctx, cases, drv)
     else:
         from harness import graphs
 
@@ -790,6 +1623,7 @@ def run(ctx: core.Ctx):
         problems = check_wide(ctx, drv)
         ctx.exhaustive = True
         problems += compare(ctx, cases, drv)
+        problems += check_profile(ctx)
     if (not ctx.lean.ok or any(not conc for _, _, conc in problems)) and not ctx.replay:
         ctx.notes.append("proof or correspondence broke: ran the widened failing-input search")
         rng2 = random.Random(ctx.seed + 7919)
@@ -799,23 +1633,27 @@ def run(ctx: core.Ctx):
     reported = set()
     for c, w in concrete:
         cls = classify(w)
-        if cls in reported or len(reported) >= 4:
+        if cls in reported or len(reported) >= 5:
             continue
         reported.add(cls)
-        if c.get("tag") == "wide":
+        if c.get("tag") in ("wide", "profile"):
             ctx.violation("real output violates C20: " + cls, {"case": c, "detail": w}, kind="concrete", match_info={"failure": cls, "engine": c["engine"]})
             continue
-        small = shrink(c)
+        small = shrink(c, cls)
         rr = run_impl_safe(small)
-        what = (verdict(small, rr) if "predict" in rr else f"real code raised {rr['__error__']}: {rr['text'][:300]}") or w
+        msgs = [v for _, v in verdicts(small, rr)] if "predict" in rr else [f"real code raised {rr['__error__']}: {rr['text'][:300]}"]
+        what = next((v for v in msgs if classify(v) == cls), None) or (msgs[0] if msgs else w)
         ctx.violation("real output violates C20: " + classify(what),
                       {"case": small, "settings": settings_dict(small), "observed": rr, "detail": what},
-                      kind="concrete", match_info={"failure": classify(what), "engine": small["engine"], "tag": small.get("tag")})
-    if not concrete:
-        if broken:
-            c, w = broken[0]
-            ctx.violation("correspondence Descriptive model <-> term_frequencies.py / completeness.py / comparison_vector_distribution.py / match_weights_histogram.py / unlinkables.py no longer checks",
-                          {"correspondence": "harness/props/c20.py compare_model(): " + w[:3000], "case": c, "disagreeing_cases": len(broken), "searched_cases": ctx.evaluations, "lean": ctx.lean.as_dict()}, kind="unproved")
-        elif not ctx.lean.ok:
-            ctx.violation("Lean obligations for C20 no longer check",
-                          {"theorems": ctx.lean.as_dict()["undischarged"], "problems": ctx.lean.problems, "build_log_tail": ctx.lean.build_log[-1500:], "searched_cases": ctx.evaluations}, kind="unproved")
+                      kind="concrete", match_info={"failure": classify(what), "engine": small["engine"], "tag": small.get("tag"),
+                                                   "input_form": small.get("form", "frame"), "entry_points": small.get("via", "internal"),
+                                                   "several_input_tables": n_inputs(small) > 1,
+                                                   "error": what[len("real code raised "):].rsplit(" in ", 1)[0] if what.startswith("real code raised ") and " in " in what else None})
+    # a broken correspondence is reported next to concrete failures: the model comparison skips only the sections the oracle rejected
+    if broken:
+        c, w = broken[0]
+        ctx.violation("correspondence Descriptive model <-> term_frequencies.py / completeness.py / comparison_vector_distribution.py / match_weights_histogram.py / unlinkables.py no longer checks",
+                      {"correspondence": "harness/props/c20.py compare_model(): " + w[:3000], "case": c, "disagreeing_cases": len(broken), "searched_cases": ctx.evaluations, "lean": ctx.lean.as_dict()}, kind="unproved")
+    elif not ctx.lean.ok:
+        ctx.violation("Lean obligations for C20 no longer check",
+                      {"theorems": ctx.lean.as_dict()["undischarged"], "problems": ctx.lean.problems, "build_log_tail": ctx.lean.build_log[-1500:], "searched_cases": ctx.evaluations}, kind="unproved")
